@@ -93,3 +93,29 @@ def handleXxh : List String → Option String
   | _ => none
 
 end Driver
+
+namespace Driver
+open NextestModel
+
+/-- `margs <args hexlist> <cli run-ignored -|o|a> <tests hex:ignored,…>` → `error:<kind>` or the names matched -/
+def handleMargs : List String → Option String
+  | [args, ri, tests] => do
+    let args ← hexList args
+    let ri ← (if ri == "-" then some none else (parseRunIgnored ri).map some)
+    let tests ← mapOpt (fun (t : String) => match t.splitOn ":" with
+      | [n, ig] => do let n ← unhex n; let ig ← bit ig; pure (n, ig)
+      | _ => none) (splitList tests ",")
+    match mergeTestBinaryArgs args ri Patterns.default with
+    | .error .duplicated => pure "error:duplicated"
+    | .error .missingArgument => pure "error:missing"
+    | .error .mutuallyExclusive => pure "error:exclusive"
+    | .error .unsupported => pure "error:unsupported"
+    | .ok (r, pats) =>
+      let res := pats.resolve
+      let sel := tests.filter (fun (n, ig) =>
+        res.nameMatch n != .mismatch &&
+        (match r.getD .default with | .default => !ig | .only => ig | .all => true))
+      pure (if sel.isEmpty then "." else ",".intercalate (sel.map (fun (n, _) => hex n)))
+  | _ => none
+
+end Driver
